@@ -58,16 +58,24 @@ def uninstall():
 STEPS = {'+us': 1, '+ms': 1_000, '+s': 1_000_000, '+min': 61_000_000, '0': 0, '-us': -1, '-ms': -1_000, '-s': -1_000_000}
 
 
-def record(mode, k, size):
+PADS = {'x': 'x', 'ctl': 'x\r \x0b\ty\x0c\x1c\x1d\x1e'}      # record bodies: plain, or with the control characters that are NOT the record delimiter (only '\n' is)
+
+
+def make_pad(n, padset='x'):
+    chars = PADS[padset]
+    return (chars * (n // len(chars) + 1))[:n]
+
+
+def record(mode, k, size, padset='x'):
     """The k-th record, self-identifying; `size` is the approximate payload size."""
-    pad = 'x' * max(0, size - 9)
+    pad = make_pad(max(0, size - 9), padset)
     if mode == 'json':
         return {'k': k, 'p': pad}
     s = f'[{k:06d}:{pad}]'
     return s if mode == 'txt' else s.encode()
 
 
-def parse_delivered(mode, data, block):
+def parse_delivered(mode, data, block, padset='x'):
     """List of record indexes contained in something read() returned; raises Violation on anything that is not a whole record."""
     import re
     if data is None:
@@ -76,23 +84,23 @@ def parse_delivered(mode, data, block):
     out = []
     for it in items:
         if mode == 'json':
-            if not (isinstance(it, dict) and set(it) == {'k', 'p'} and isinstance(it['k'], int) and set(it['p']) <= {'x'}):
+            if not (isinstance(it, dict) and set(it) == {'k', 'p'} and isinstance(it['k'], int) and isinstance(it['p'], str) and it['p'] == make_pad(len(it['p']), padset)):
                 raise Violation(f'reader returned something that is not a written record: {str(it)[:80]!r}', 'torn-record')
             out.append((it['k'], len(it['p'])))
             continue
         s = it if isinstance(it, str) else bytes(it).decode('latin1')
         if mode == 'bin':
             pos = 0
-            for m in re.finditer(r'\[(\d{6}):(x*)\]', s):
-                if m.start() != pos:
+            for m in re.finditer(r'\[(\d{6}):([^\[\]\n]*)\]', s):
+                if m.start() != pos or m.group(2) != make_pad(len(m.group(2)), padset):
                     break
                 out.append((int(m.group(1)), len(m.group(2))))
                 pos = m.end()
             if pos != len(s):
                 raise Violation(f'binary block is not a concatenation of whole records: ...{s[max(0, pos - 20):pos + 30]!r}', 'torn-record')
         else:
-            m = re.fullmatch(r'\[(\d{6}):(x*)\]', s)
-            if not m:
+            m = re.fullmatch(r'\[(\d{6}):([^\[\]\n]*)\]', s)
+            if not m or m.group(2) != make_pad(len(m.group(2)), padset):
                 raise Violation(f'reader returned a torn/foreign record {s[:60]!r}', 'torn-record')
             out.append((int(m.group(1)), len(m.group(2))))
     return out
@@ -117,6 +125,7 @@ class World:
         self.rl = rl
         self.cfg = cfg
         self.mode = cfg['mode']
+        self.padset = cfg.get('pad', 'x')
         self.dir = tempfile.mkdtemp(prefix='rolllog-', dir='/dev/shm' if os.path.isdir('/dev/shm') else None)
         self.logdir = os.path.join(self.dir, 'logs')
         self.clock = Clock()
@@ -217,7 +226,7 @@ class World:
         if step.startswith('-'):
             self.classes.add('write after the clock stepped backwards')
         k = len(self.written)
-        rec = record(self.mode, k, size)
+        rec = record(self.mode, k, size, self.padset)
         will_roll = self.writer.write_file is None
         self.writer.write(rec, timestamp=(self.clock.us * 10 + sub) / 10_000_000 if given else None)
         self.written.append(size)
@@ -226,7 +235,7 @@ class World:
         self.check_fs_after_write(k, size)
 
     def deliver(self, r, data, block):
-        recs = parse_delivered(self.mode, data, block)
+        recs = parse_delivered(self.mode, data, block, self.padset)
         if recs is None:
             return None
         for k, padlen in recs:
